@@ -145,6 +145,8 @@ def directed(rng):
         add('baseend-%d' % v, {'conc': 1 + v % 2, 'basectx': True}, [S(call(1)), D, S(call(2), call(3)), D, dict(a='baseend'), D, hret('m1.1', 'ctxerr'), D,
                                                                     S(call(1)), D])
         # ... a notification that was waiting for a slot then never runs, and must not be waited for by anything behind it
+        # NewContext is asked once per request: the members of a batch do not share a base context
+        add('base-per-request-%d' % v, {'conc': 3, 'basectx': True}, [S(call(1), call(2), note()), D, S(call(3)), D, hret('m1.1'), hret('m1.2'), hret('m1.3'), hret('m2.1'), D] + ([dict(a='baseend'), D] if v else []))
         add('baseend-note-%d' % v, {'conc': 1, 'basectx': True, 'recvUnblocks': v == 2}, [S(call(1)), D, S(note()), D, dict(a='baseend'), D, hret('m1.1', 'ctxerr'), D,
                                                                  S(note()), D, S(call(2)), D] + ([dict(a='stop'), D] if v == 0 else [dict(a='peerclose'), D] if v == 1 else [dict(a='stop'), D, dict(a='restart'), S(call(1)), D])
                                                                  )
@@ -276,6 +278,9 @@ def directed(rng):
         add('push-ended-ctx-%d' % v, P, [S(call(1)), D, dict(a='endedpush'), dict(a='notify'), dict(a='callback', c='cbA'), D, dict(a='notify', **({'from': 'm1.1'} if v else {})), dict(a='callback', c='cbB'), D,
                                          S(reply(1, v)), D, hret('m1.1'), D])
         add('cb-noctx-reply-%d' % v, P, [dict(a='callback', c='cbA', noctx=True), D, S(reply(1, v)), D, dict(a='callback', c='cbB', noctx=True), D, dict(a='recverr'), D])
+        # ... wherever the reply stands in its batch
+        add('cb-mixed-callfirst-%d' % v, P, [dict(a='callback', c='cbA'), D, S(call(1), reply(1, v)), D, hret('m1.1'), D])
+        add('cb-mixed-notefirst-%d' % v, P, [dict(a='callback', c='cbA'), D, S(note(), reply(1, v), call(2)), D, hret('m1.1'), hret('m1.3'), D])
         add('cb-mixed-%d' % v, P, [dict(a='callback', c='cbA'), D, S(reply(1, v), call(1)), D, hret('m1.2'), D])
         add('nopush-%d' % v, {}, [dict(a='callback', c='cbA'), dict(a='notify'), D, S(reply(1, v)), D])
         # ... unconditionally: also once the connection has ended, and whatever the parameters are
